@@ -334,6 +334,7 @@ def stepC20 (d : DSt) (op : String) (got : String) : StepResult DSt :=
           | _ => mk d1 s!"ok:{Name.toText fin}:<digest>" [] [] ["datafor-bad"]
       | ["nack", nameT] => doNack nameT "ok" (wrapCov "w1")
       | ["nack", nameT, w] => doNack nameT "ok" (wrapCov w)
+      | ["nack", nameT, w, h] => doNack nameT "ok" (wrapCov w ++ [s!"nack-hop-{h}"])
       | ["nackfor", label, w] =>
         match finalOf label with
         | none => mk d1 "skip" [] [] ["nackfor-skip"]
@@ -360,7 +361,7 @@ def stepC20 (d : DSt) (op : String) (got : String) : StepResult DSt :=
           let fib2 := if gotRes == "ok" then sp1.fib.filter (·.1 != p) else sp1.fib
           mk { d1 with m := m2, sp := { sp1 with fib := fib2 } } res [] f2 [if res == "ok" then "detach" else "detach-err"]
         | none => bad d
-      | ["interest", rlabel, nameT, lifeT, _tok] =>
+      | "interest" :: rlabel :: nameT :: lifeT :: _tok :: hopRest =>
         match Name.ofText nameT, optNat lifeT with
         | some name, some lifeMs =>
           let life := lifeMs.map (· * 1000)
@@ -377,8 +378,8 @@ def stepC20 (d : DSt) (op : String) (got : String) : StepResult DSt :=
               s!"Interest {nameT}: handler/deadline {gotRes}, the longest attached prefix gives {wantTxt}"⟩]
           let rx2 := if gotRes != "none" then sp1.rx ++ [(rlabel, dl)] else sp1.rx
           mk { d1 with m := m2, rxl := rxl2, sp := { sp1 with rx := rx2 } } res [] f2
-            [if res == "none" then "interest-nohandler" else "interest-handled",
-             if lifeMs.isNone then "interest-default-life" else "interest-life"]
+            ((hopRest.map fun h => s!"interest-hop-{h}") ++ [if res == "none" then "interest-nohandler" else "interest-handled",
+             if lifeMs.isNone then "interest-default-life" else "interest-life"])
             (sp1.fib.length ≥ 2 && want.isSome)
         | _, _ => bad d
       | ["reply", rlabel] =>
